@@ -447,13 +447,33 @@ class Runner:
                 qvars |= eng.expr_info(a)[0]
             reals = [c for nme, c in inputs.items() if not nme.startswith("\0") and z3.is_real(c) and str(c) in qvars][:24]
             if reals:
-                generic = [c != 0 for c in reals] + [reals[i] != reals[j] for i in range(len(reals)) for j in range(i + 1, len(reals))]
-                m2 = solve.get_model(full + generic, r["q"]["logic"], inputs, timeout_ms=int(min(self.cap, 20) * 1000))
-                if m2 is not None:
+                generic = [c != 0 for c in reals] + [reals[i] != reals[i + 1] for i in range(len(reals) - 1)] + [reals[i] != reals[i + 2] for i in range(len(reals) - 2)]
+                seen_models = [model]
+                for attempt in range(3):
+                    # later attempts also move every input away from the values already tried
+                    away = []
+                    for pm in seen_models[1:]:
+                        for nme, c in inputs.items():
+                            if z3.is_real(c) and str(c) in qvars and isinstance(pm.get(nme), (int, float)):
+                                try:
+                                    away.append(c != z3.RealVal(repr(float(pm[nme]))))
+                                except Exception:
+                                    pass
+                    m2 = solve.get_model(full + generic + away, r["q"]["logic"], inputs, timeout_ms=int(min(self.cap, 20) * 1000))
+                    if m2 is None:
+                        rec.setdefault("generic_failed", 0)
+                        rec["generic_failed"] += 1
+                        if attempt == 0:
+                            # fall back to non-zero inputs only
+                            m2 = solve.get_model(full + [c != 0 for c in reals], r["q"]["logic"], inputs, timeout_ms=int(min(self.cap, 20) * 1000))
+                        if m2 is None:
+                            break
+                    seen_models.append(m2)
                     a2, n2, f2, c2 = run_model(m2)
                     if c2:
                         assignment, nat, failing, confirmed = a2, n2, f2, c2
-                        rec["generic_model"] = True
+                        rec["generic_model"] = attempt + 1
+                        break
         rec["model"] = {k: (v if isinstance(v, int) else repr(v)) for k, v in assignment.items()}
         rec["native"] = dict(status=nat["status"], failing=failing)
         if not confirmed:
@@ -601,7 +621,8 @@ class Runner:
         self.log("[verdicts] " + ", ".join("%s=%d" % kv for kv in sorted(st.items())))
         for r in self.results:
             if r["status"] in ("unknown", "unconfirmed"):
-                self.log("  %s %s :: %s %s" % (r["status"].upper(), r["entry"], r["id"], r.get("why", r.get("answers"))))
+                self.log("  %s %s :: %s %s%s" % (r["status"].upper(), r["entry"], r["id"], r.get("why", r.get("answers")),
+                                              (" model=%s" % str(r.get("model"))[:400]) if r["status"] == "unconfirmed" else ""))
         vac = [k for k, w in self.witness.items() if not w["reached"] or w["sat"] is False]
         for k in vac:
             self.log("[witness] VACUOUS harness entry %s" % k)
